@@ -44,7 +44,7 @@ CALC_GROUP = {"xray_n": "xray", "xray_N": "xray", "xray_all_fwd": "xray", "xray_
 INIT_GROUP = {"nsf.init": "neutron", "xsf.init": "xray", "xsf.init_spectral_lines": "emission",
               "covalent_radius.init": "covalent_radius", "crystal_structure.init": "crystal_structure",
               "magnetic_ff.init": "magnetic_ff", "activation.init": "activation", "mass.init": None, "density.init": None}
-INIT_GROUP.update((e + "+reload", g) for e, g in list(INIT_GROUP.items()))
+INIT_GROUP.update([(e + "+reload", g) for e, g in list(INIT_GROUP.items())] + [(e + "+clone", g) for e, g in list(INIT_GROUP.items())])
 DIGEST_GROUP = dict((g, g) for g in H.GROUPS)
 DIGEST_GROUP.update(("calc:" + c, g) for c, g in CALC_GROUP.items())
 DIGEST_GROUP["calc:list"] = "covalent_radius"
@@ -61,6 +61,7 @@ def full_alphabet():
     evs += [["calc", c, "public"] for c in H.CALCS]
     evs += bare_table_events(True)
     evs += [["ext", "ok"], ["ext", "fail"]]
+    evs += [["init", e, "public"] for e in H.CLONE_ENTRIES]
     return evs
 
 
@@ -95,6 +96,7 @@ def reduced_alphabet():
     evs += [["calc", c, "public"] for c in H.CALCS if c not in H.EVENT_ONLY_CALCS[2:]]
     evs += bare_table_events(False)
     evs += [["ext", "ok"], ["ext", "fail"]]
+    evs += [["init", e, "public"] for e in H.CLONE_ENTRIES]
     return evs
 
 
